@@ -260,6 +260,54 @@ _HEADER_LIB = [
     {'code': 'class Base: pass\nclass Base(Base):\n    pass\n', 'pos': (2, 11), 'expected': (1, 6)},
 ]
 
+# ------------------------------------------------------------------ which branch of a flow a node sits in
+def _replay_branch_kw(inp):
+    """the real get_flow_branch_keyword on an if/elif/elif/else (or try/except/except) statement: nodes of DIFFERENT
+    branches must get different answers, nodes of the same branch the same one"""
+    from pyvc.replay import run_real
+    import parso
+    from jedi.parser_utils import get_flow_branch_keyword
+    module = parso.parse(inp['code'])
+    flow = module.children[0]
+    names = {}
+    leaf = module.get_first_leaf()
+    while leaf is not None:
+        if leaf.type == 'name' and leaf.value.startswith('n'):
+            names[leaf.value] = leaf
+        leaf = leaf.get_next_leaf()
+
+    def run():
+        res = {k: get_flow_branch_keyword(flow, v) for k, v in names.items()}
+        same = lambda a, b: (res[a] is res[b]) if not isinstance(res[a], str) else (res[a] == res[b])
+        return {'pairs': {('%s,%s' % (a, b)): (res[a] is not None and res[b] is not None and (res[a] is res[b] or res[a] == res[b]))
+                          for a in sorted(names) for b in sorted(names) if a < b}}
+    out = run_real(run)
+    return {'SAME': inp['same']}, out
+
+
+_branch_kw = [Contract(
+    id='C03.get_flow_branch_keyword[%d]' % n, prop='C03',
+    clause='last reachable definition wins / branches are told apart: the branch a node sits in is identified by the '
+           'keyword LEAF that opens it (an object of the tree), so that two branches opened by the same keyword text '
+           '(elif ... elif, except ... except) are different branches (%d children)' % n,
+    file='jedi/parser_utils.py', qualname='get_flow_branch_keyword',
+    params={'flow_node': _PN, 'node': _PN}, ghost={'CH': Seq(_PN)}, families=['PNode'], ret=Opt(_PN), tier='SB',
+    bounds={'children of the flow statement': n}, unroll={0: n},
+    requires=['not flow_node.is_leaf', 'flow_node.children == CH'],
+    raises={'ValueError': 'not (flow_node.start_pos < node.start_pos and node.start_pos <= flow_node.end_pos)'},
+    raises_iff=['ValueError'],
+    ensures=['implies(result is not None, any(the(result) is c.get_first_leaf() for c in CH))'],
+    witness={}, replay=_replay_branch_kw, concrete_only=True,
+    witness_library=[
+        {'code': 'if a:\n    n1\n    n2\nelif b:\n    n3\nelif c:\n    n4\nelse:\n    n5\n',
+         'same': ['n1,n2']},
+        {'code': 'try:\n    n1\nexcept A:\n    n2\nexcept B:\n    n3\n    n4\nfinally:\n    n5\n', 'same': ['n3,n4']},
+    ],
+    concrete_ensures=['all(v == (k in SAME) for k, v in result["pairs"].items() if "n5" not in k)'],
+) for n in (2, 4, 6)]
+for _c, _n in zip(_branch_kw, (2, 4, 6)):
+    _c.shape = {'CH': _n}
+
 _ANC = 'name_or_none.search_ancestor("funcdef", "classdef", "lambdef")'
 _header_rule = Contract(
     id='C03._get_global_filters_for_name', prop='C03',
@@ -308,7 +356,7 @@ FAMILIES = [
     Family('FilterObj'),
 ]
 
-CONTRACTS = [_is_scope] + PARENT_SCOPE + [_abs_filter, _global_filter, _reachable, _check_flows] + _get_global_filters + [_big_lib, _header_rule]
+CONTRACTS = [_is_scope] + PARENT_SCOPE + [_abs_filter, _global_filter, _reachable, _check_flows] + _get_global_filters + [_big_lib, _header_rule] + _branch_kw
 
 
 def register(reg):
